@@ -10,7 +10,7 @@ import sys
 import time
 
 REPO = '/repo'
-VERIF = '/verif'
+VERIF = os.environ.get('VERIF_DIR', '/verif')
 
 
 def sh(cmd, cwd=None, env=None, timeout=1800):
